@@ -107,11 +107,18 @@ structure Cx where
   noCopyDict : Bool := false
   deriving Repr, Inhabited
 
-/-- `could_be_none` of a dataclass field (builder.py): Any, NoneType, Optional[...] or a
-    default that is None. -/
+mutual
+/-- `could_be_none` of a dataclass field (builder.py, helpers.is_nullable): Any, NoneType,
+    Optional[...], a union with a nullable member, a Literal listing None — or a default that is None. -/
 def Ty.nullableAnn : Ty → Bool
   | .any | .none | .opt _ => true
+  | .union ts => Ty.nullableAnnL ts            -- since fix F41: a union of any length with a None member,
+  | .lit vals => vals.any (fun cw => isNone cw.1)   -- and a Literal listing None
   | _ => false
+def Ty.nullableAnnL : List Ty → Bool
+  | [] => false
+  | t :: ts => t.nullableAnn || Ty.nullableAnnL ts
+end
 
 def FieldDef.defaultIsNone (f : FieldDef) : Bool :=
   match f.default with
